@@ -3049,6 +3049,9 @@ impl<'a> QueryServerWriteTransaction<'a> {
         // Write the cid to the db. If this fails, we can't assume replication
         // will be stable, so return if it fails.
         be_txn.set_db_ts_max(cid.ts)?;
+        // The database commits first. If it fails, nothing that readers use in memory (change
+        // id, schema, domain settings, key material, access controls) may have been published.
+        be_txn.commit()?;
         cid.commit();
         #[cfg(feature = "verif-hooks")]
         crate::verif::pause("qs_commit.after_cid");
@@ -3071,7 +3074,6 @@ impl<'a> QueryServerWriteTransaction<'a> {
             .map(|_| dyngroup_cache.commit())
             .and_then(|_| key_providers.commit())
             .and_then(|_| accesscontrols.commit())
-            .and_then(|_| be_txn.commit())
     }
 
     pub(crate) fn get_txn_cid(&self) -> &Cid {
